@@ -438,6 +438,14 @@ def main(args):
             lits = sorted(lits, key=lambda rv: -(len(rv[0]) - len(rv[1])))[:8]
         if lits:
             units.append(dict(kind='corpus', module=m, L=0, literals=lits, timeout=20 if tier == 'quick' else 300))
+    if getattr(args, 'units_only', False):
+        return units
+    if tier != 'quick':
+        # thorough = the quick tier's units first (larger caps), then everything else while the budget lasts
+        import copy
+        qa = copy.copy(args)
+        qa.tier, qa.units_only = 'quick', True
+        units = common.plan_thorough(units, main(qa))
     rep = common.Report('C14', tier)
     rep.assumptions = ASSUMPTIONS
     rep.bounds = {'char': 'one character over 0..0x10FFFF, deletechars empty (exhaustive over code points by symbolic ranges)',
